@@ -339,6 +339,28 @@ def directed_cases(ck):
             if "Aggregate" in tr:
                 tr["Aggregate"]["partition"] = list(tr["Aggregate"]["compute"])
         add("fixed:N18", "json_rq", json.dumps(d), target="sql.generic")
+    # C12-N16 (696874e): an operator node no std.sql implementation matches
+    o5 = harness("rq", [{"src": "from t | derive {x = a + b, s = sum a}"}])[0]
+    if "ok" in o5:
+        txt = json.dumps(o5["ok"])
+        for t2 in (txt.replace('"std.add"', '"_literal"'), txt.replace('"std.add"', '"add"'), txt.replace('"std.add"', '"std."')):
+            if t2 != txt:
+                add("fixed:N16", "json_rq", t2, target="sql.generic")
+        d = copy.deepcopy(o5["ok"])
+
+        def strip_args(v):
+            if isinstance(v, dict):
+                op = v.get("Operator")
+                if isinstance(op, dict) and isinstance(op.get("args"), list) and op["args"]:
+                    op["args"] = op["args"][:-1]
+                for x in v.values():
+                    strip_args(x)
+            elif isinstance(v, list):
+                for x in v:
+                    strip_args(x)
+        strip_args(d)
+        for dialect in ("sql.generic", "sql.sqlite", "sql.mssql"):
+            add("fixed:N16", "json_rq", json.dumps(d), target=dialect)
     # C12-N6 (79f4a51): ids of usize::MAX
     b5 = harness("rq", [{"src": "from t | take 5"}])[0]
     if "ok" in b5:
